@@ -541,7 +541,8 @@ def language_traps(ctx, fns, clause):
     for r_, t_ in (("TRAP-iter", "a one-shot iterator bound to a local is consumed once"),
                    ("TRAP-late", "closures created in a loop do not read the loop variable after the iteration"),
                    ("TRAP-default", "mutable default arguments are neither mutated nor handed out"),
-                   ("TRAP-shared", "dict.fromkeys is not given a mutable value")):
+                   ("TRAP-shared", "dict.fromkeys is not given a mutable value"),
+                   ("TRAP-getter", "the result of operator.itemgetter(*names) is not consumed as a sequence unless there are at least two names")):
         ctx.rule(r_, t_)
     n = {"iter": 0, "late": 0, "default": 0, "shared": 0}
     for fn in fns:
@@ -660,6 +661,83 @@ def language_traps(ctx, fns, clause):
                             ctx.ob("TRAP-shared", f, norm(c)[:70], c, False,
                                    f"every key of {norm(c)[:50]} refers to the SAME {norm(v)} object: what is added under one key shows under all",
                                    clause=clause)
+    # ---- TRAP-iter at module level: a generator / map / zip object bound once at import time and read inside functions is
+    # shared by all calls; the first call(s) use it up
+    # (module state is shared by everything that runs in the process: all modules of the package are looked at)
+    for mod in ctx.repo.modules.values():
+        for s_ in mod.tree.body:
+            if not (isinstance(s_, ast.Assign) and len(s_.targets) == 1 and isinstance(s_.targets[0], ast.Name)):
+                continue
+            v = s_.value
+            if not (isinstance(v, ast.GeneratorExp) or (isinstance(v, ast.Call) and isinstance(v.func, ast.Name) and v.func.id in ONE_SHOT_CALLS)):
+                continue
+            name = s_.targets[0].id
+            n["iter"] += 1
+            for f in [g for g in ctx.repo.functions.values() if g.module is mod]:
+                if name in f.all_params or any(isinstance(x, ast.Name) and x.id == name and isinstance(x.ctx, ast.Store) for x in body_nodes(f.node)):
+                    continue
+                uses = [x for x in body_nodes(f.node) if isinstance(x, ast.Name) and x.id == name and isinstance(x.ctx, ast.Load)]
+                if uses:
+                    ctx.ob("TRAP-iter", f, f"module-level {name} = {norm(v)[:50]}", uses[0], False,
+                           f"{name} is ONE iterator object created when the module is imported; {f.name}() consumes it, so every call "
+                           f"continues where the previous one stopped (and later calls get nothing)", clause=clause)
+    # ---- TRAP-getter: operator.itemgetter(*names) returns a bare element, not a 1-tuple, when there is exactly one name
+    for fn in fns:
+        for f in _all_fns([fn]):
+            parent = f.module.parent
+            nodes = list(body_nodes(f.node))
+            getters = {}
+            for a in nodes:
+                c = a.value if isinstance(a, ast.Assign) and len(a.targets) == 1 and isinstance(a.targets[0], ast.Name) else None
+                if isinstance(c, ast.Call) and norm(c.func).endswith("itemgetter") and len(c.args) == 1 and isinstance(c.args[0], ast.Starred):
+                    getters[a.targets[0].id] = c
+            star_calls = [c for c in nodes if isinstance(c, ast.Call) and norm(c.func).endswith("itemgetter") and len(c.args) == 1
+                          and isinstance(c.args[0], ast.Starred)]
+            if not star_calls:
+                continue
+            n["getter"] = n.get("getter", 0) + len(star_calls)
+
+            def seq_use(node):
+                """is the value of ``node`` consumed as a sequence (zipped, iterated, unpacked, len, list/tuple/dict(zip))?"""
+                par = parent.get(node)
+                if isinstance(par, ast.Call) and isinstance(par.func, ast.Name) and par.func.id in ("zip", "list", "tuple", "len", "enumerate", "set") \
+                        and node in par.args:
+                    return True
+                if isinstance(par, (ast.For, ast.comprehension)) and par.iter is node:
+                    return True
+                if isinstance(par, ast.Starred):
+                    return True
+                if isinstance(par, ast.Assign) and par.value is node and isinstance(par.targets[0], (ast.Tuple, ast.List)):
+                    return True
+                return False
+            for c in star_calls:
+                src_ = norm(c.args[0].value)
+                from ..facts import facts_at
+                import re as _reg
+                if any(k == "T" and _reg.search(r"len\(" + _reg.escape(src_) + r"\) (>|>=) [12]", t) for k, t in facts_at(f, c)):
+                    continue
+                gname = next((g for g, gc in getters.items() if gc is c), None)
+                results = []      # expressions that hold ONE getter result
+                for x in nodes:
+                    if isinstance(x, ast.Call) and ((gname and isinstance(x.func, ast.Name) and x.func.id == gname) or x.func is c):
+                        results.append(x)
+                    # map(getter, rows): elements of the map object
+                    if isinstance(x, ast.Call) and isinstance(x.func, ast.Name) and x.func.id == "map" and x.args and \
+                            ((gname and isinstance(x.args[0], ast.Name) and x.args[0].id == gname) or x.args[0] is c):
+                        mp = parent.get(x)
+                        if isinstance(mp, ast.Assign) and isinstance(mp.targets[0], ast.Name):
+                            rn = mp.targets[0].id
+                            for comp in [y for y in nodes if isinstance(y, (ast.GeneratorExp, ast.ListComp, ast.DictComp, ast.SetComp))]:
+                                for g_ in comp.generators:
+                                    if isinstance(g_.iter, ast.Name) and g_.iter.id == rn and isinstance(g_.target, ast.Name):
+                                        results += [y for y in ast.walk(comp) if isinstance(y, ast.Name) and y.id == g_.target.id
+                                                    and isinstance(y.ctx, ast.Load)]
+                bad = [r for r in results if seq_use(r)]
+                if bad:
+                    ctx.ob("TRAP-getter", f, norm(c)[:60], bad[0], False,
+                           f"{norm(c)[:50]} returns a tuple for two or more names but the BARE element for exactly one; the result is used as a "
+                           f"sequence ({norm(parent.get(bad[0]))[:50]}): with a single name a string is zipped / iterated character by character",
+                           clause=clause)
     ctx.note(f"TRAP: {n['iter']} one-shot iterators bound to locals, {n['late']} closures over loop variables, "
              f"{n['default']} mutable defaults, {n['shared']} fromkeys(keys, value) calls examined")
 
